@@ -29,11 +29,80 @@ type Case struct {
 	A    int    `json:"a"`
 	B    int    `json:"b"`
 	Srcs []Src  `json:"srcs"`
+	// Many (instead of Srcs, "repeated appends"): this many appends of short separate sources
+	// (1..3 frames, in rotation) onto one destination header that starts with A frames of
+	// length and Kr frames of capacity, see marathon.
+	Many int `json:"many,omitempty"`
 }
+
+// marathon: one destination header over tens of thousands of appends. The length grows by the
+// source's length every time, the capacity stays a whole number of frames at least the length,
+// it changes only when the old one did not suffice, and the contents at the end are all the
+// sources in order.
+func marathon[T signal.SignalTypes](c *Case) (res kit.Result) {
+	C := c.C
+	dst := signal.Alloc[T](signal.Allocator{Channels: C, Length: c.A, Capacity: c.Kr})
+	model := make([]T, C*c.A, C*c.A+C*2*c.Many)
+	var srcs [3]*signal.Buffer[T]
+	for i := range srcs {
+		srcs[i] = signal.Alloc[T](signal.Allocator{Channels: C, Length: i + 1, Capacity: i + 1})
+	}
+	moves := 0
+	for i := 0; i < c.Many; i++ {
+		src := srcs[i%3]
+		for k := 0; k < src.Len(); k++ {
+			src.SetSample(k, T(1+(i+k)%100))
+			model = append(model, T(1+(i+k)%100))
+		}
+		capBefore, lenBefore := dst.Cap(), dst.Len()
+		if p, v := kit.Try(func() { dst.Append(src) }); p {
+			res.Failf("append #%d of %d frames onto one header (now %d frames, capacity %d): panic: %v", i+1, src.Length(), lenBefore/C, capBefore/C, v)
+			return
+		}
+		if dst.Len() != len(model) || dst.Length() != len(model)/C {
+			res.Failf("after append #%d: length %d samples / %d frames, want %d / %d", i+1, dst.Len(), dst.Length(), len(model), len(model)/C)
+			return
+		}
+		if cp := dst.Cap(); cp < dst.Len() || cp%C != 0 || dst.Capacity() != cp/C {
+			res.Failf("after append #%d: capacity %d samples (Capacity() %d) with length %d and %d channels: not a whole number of frames that is at least the length", i+1, cp, dst.Capacity(), dst.Len(), C)
+			return
+		}
+		if fit := capBefore >= lenBefore+src.Len(); fit && dst.Cap() != capBefore {
+			res.Failf("append #%d fitted the old capacity (%d samples, %d needed) and yet the capacity is now %d", i+1, capBefore, lenBefore+src.Len(), dst.Cap())
+			return
+		} else if !fit {
+			moves++
+		}
+		if i%4096 == 0 || i == c.Many-1 { // the newest samples now, everything at the end
+			for k := lenBefore; k < len(model); k++ {
+				if !kit.Same(dst.Sample(k), model[k]) {
+					res.Failf("after append #%d: sample %d reads %s, want %s", i+1, k, kit.Str(dst.Sample(k)), kit.Str(model[k]))
+					return
+				}
+			}
+		}
+	}
+	for k := range model {
+		if !kit.Same(dst.Sample(k), model[k]) {
+			res.Failf("after %d appends onto one header: sample %d reads %s, want %s", c.Many, k, kit.Str(dst.Sample(k)), kit.Str(model[k]))
+			return
+		}
+	}
+	res.Class("repeatedAppendsOntoOneHeader")
+	if c.Many >= 1<<16 {
+		res.Class("moreThan65536AppendsOntoOneHeader")
+	}
+	if moves >= 2 {
+		res.Class("severalMovesToNewStorage")
+	}
+	return
+}
+
+var marathons = map[string]func(*Case) kit.Result{}
 
 var table = map[string]func(*Case) kit.Result{}
 
-func reg[T signal.SignalTypes](n string) { table[n] = run[T] }
+func reg[T signal.SignalTypes](n string) { table[n] = run[T]; marathons[n] = marathon[T] }
 
 func init() {
 	reg[int]("int")
@@ -58,6 +127,12 @@ func Check(c *Case) kit.Result {
 	f, ok := table[c.T]
 	if !ok || c.C < 1 || c.Kr < 0 || c.A < 0 || c.A > c.B || c.B > c.Kr || c.C*c.Kr > 1<<21 || len(c.Srcs) > 8 {
 		return kit.Result{}
+	}
+	if c.Many != 0 {
+		if c.Many < 0 || c.Many > 1<<18 || c.C > 8 || c.A > c.Kr || len(c.Srcs) != 0 {
+			return kit.Result{}
+		}
+		return marathons[c.T](c)
 	}
 	for _, s := range c.Srcs {
 		if s.Kind != "self" && (s.A < 0 || s.A > s.B) {
@@ -338,7 +413,7 @@ func run[T signal.SignalTypes](c *Case) (res kit.Result) {
 func FP(c *Case) uint64 {
 	h := kit.NewHasher()
 	h.Str(c.T)
-	h.Ints([]int{c.C, c.Kr, c.A, c.B, len(c.Srcs)})
+	h.Ints([]int{c.C, c.Kr, c.A, c.B, len(c.Srcs), c.Many})
 	for _, s := range c.Srcs {
 		h.Str(s.Kind)
 		h.Ints([]int{s.Kr, s.A, s.B})
@@ -350,6 +425,14 @@ var names = append(kit.BuiltinNames(), kit.SomeNamed...)
 
 func Gen(t *rapid.T) *Case {
 	c := &Case{T: rapid.SampledFrom(names).Draw(t, "type"), C: kit.GenChannels(t)}
+	if kit.Chance(t, "marathon", 1, 400) {
+		c.C = rapid.IntRange(1, 4).Draw(t, "cMany")
+		c.Kr = rapid.IntRange(0, 40).Draw(t, "krMany")
+		c.A = rapid.IntRange(0, c.Kr).Draw(t, "aMany")
+		c.B = c.A
+		c.Many = rapid.IntRange(300, 9000).Draw(t, "many")
+		return c
+	}
 	c.Kr, c.A, c.B = kit.GenWindow(t, "d", 300)
 	if c.C > 8 { // wide frames: keep the roots moderate, the interesting part is where the runtime's size classes fall
 		c.Kr, c.A, c.B = kit.GenWindow(t, "dWide", 60)
